@@ -6,6 +6,7 @@ inductive Node where
   | scalar (id : Nat)
   | map (members : List (Bytes × Node))
   | seq (items : List Node)
+deriving Inhabited
 
 /-! ### the implementation, as a model -/
 def splitAux : Bytes → Bytes → List Bytes
@@ -283,6 +284,164 @@ theorem find_complete {ptr : Bytes} {n r : Node} (h : Rfc ptr n r) (hs : Small n
     that node — never a different one. -/
 theorem find_iff_rfc (ptr : Bytes) (n r : Node) (hs : Small n) : find ptr n = some r ↔ Rfc ptr n r :=
   ⟨find_sound ptr n r, fun h => find_complete h hs⟩
+
+/-! ### the URI-fragment form (`#…`): percent-decode, then evaluate (RFC 6901 §6) -/
+def isHex (c : UInt8) : Bool :=
+  (0x30 ≤ c && c ≤ 0x39) || (0x61 ≤ c && c ≤ 0x66) || (0x41 ≤ c && c ≤ 0x46)
+def unhex (c : UInt8) : UInt8 :=
+  if 0x30 ≤ c && c ≤ 0x39 then c - 0x30 else if 0x61 ≤ c && c ≤ 0x66 then c - 0x61 + 10 else c - 0x41 + 10
+
+/-- `url.PathUnescape` -/
+def pctDecode : Bytes → Option Bytes
+  | [] => some []
+  | c :: cs =>
+    if c = 0x25 then
+      match cs with
+      | a :: b :: rest =>
+        if isHex a && isHex b then (pctDecode rest).map ((unhex a <<< 4 ||| unhex b) :: ·) else none
+      | _ => none
+    else (pctDecode cs).map (c :: ·)
+
+/-- RFC 3986 percent-decoding as a relation (independent of the scanning code) -/
+inductive Pct : Bytes → Bytes → Prop
+  | nil : Pct [] []
+  | esc {a b r d} : isHex a = true → isHex b = true → Pct r d →
+      Pct (0x25 :: a :: b :: r) ((unhex a <<< 4 ||| unhex b) :: d)
+  | raw {c r d} : c ≠ 0x25 → Pct r d → Pct (c :: r) (c :: d)
+
+inductive Res (α : Type) where
+  | ok (a : α) | err | unmodelled
+
+/-- `jsonpointer.Resolve`'s four-way switch; a string that starts with neither `/` nor `#` goes
+    through `url.Parse` (a URI reference whose fragment is the pointer) and is not modelled. -/
+def resolve (ptr : Bytes) (n : Node) : Res Node :=
+  match ptr with
+  | [] => .ok n
+  | c :: rest =>
+    if c = 0x2f then (match find ptr n with | some r => .ok r | none => .err)
+    else if c = 0x23 then
+      if rest.isEmpty then .ok n
+      else match pctDecode rest with
+        | none => .err
+        | some d => (match find d n with | some r => .ok r | none => .err)
+    else .unmodelled
+
+/-- RFC 6901 §3–§6 for both spellings -/
+inductive RfcAny : Bytes → Node → Node → Prop
+  | plain {p n r} : Rfc p n r → RfcAny p n r
+  | frag {q d n r} : Pct q d → Rfc d n r → RfcAny (0x23 :: q) n r
+
+theorem pctDecode_sound (s : Bytes) : ∀ d, pctDecode s = some d → Pct s d := by
+  fun_induction pctDecode s with
+  | case1 => intro d h; cases h; exact Pct.nil
+  | case2 a b rest hh ih =>
+    intro d h
+    simp only [Option.map_eq_some_iff] at h
+    obtain ⟨d', hd', rfl⟩ := h
+    simp only [Bool.and_eq_true] at hh
+    exact Pct.esc hh.1 hh.2 (ih d' hd')
+  | case3 a b rest hh => intro d h; cases h
+  | case4 cs hcs => intro d h; cases h
+  | case5 c cs hc ih =>
+    intro d h
+    simp only [Option.map_eq_some_iff] at h
+    obtain ⟨d', hd', rfl⟩ := h
+    exact Pct.raw hc (ih d' hd')
+
+theorem pctDecode_complete {s d : Bytes} (h : Pct s d) : pctDecode s = some d := by
+  induction h with
+  | nil => rfl
+  | esc ha hb _ ih => unfold pctDecode; simp [ha, hb, ih]
+  | raw hc _ ih => unfold pctDecode; simp [hc, ih]
+
+theorem pct_functional {s d d' : Bytes} (h : Pct s d) (h' : Pct s d') : d = d' := by
+  have := pctDecode_complete h; rw [pctDecode_complete h'] at this; cases this; rfl
+
+/-- **C16 (both spellings)**: for a plain (`""`, `/…`) or fragment (`#…`) pointer, `Resolve`
+    returns node `r` exactly when RFC 6901 evaluation designates `r`; otherwise it reports an
+    error. Completeness needs arrays shorter than 2^64 (the bound of `ParseUint(…, 64)`). -/
+theorem resolve_iff_rfc (ptr : Bytes) (n r : Node) (hs : Small n) :
+    resolve ptr n = .ok r ↔ (RfcAny ptr n r ∧ (ptr = [] ∨ ptr.head? = some 0x2f ∨ ptr.head? = some 0x23)) := by
+  constructor
+  · intro h
+    unfold resolve at h
+    split at h
+    · cases h; exact ⟨.plain .whole, .inl rfl⟩
+    · rename_i c rest
+      split at h
+      · rename_i hc
+        subst hc
+        split at h
+        · rename_i r' hf; cases h
+          exact ⟨.plain (find_sound _ _ _ hf), .inr (.inl rfl)⟩
+        · cases h
+      · split at h
+        · rename_i hc
+          subst hc
+          split at h
+          · rename_i he; cases h
+            have : rest = [] := by simpa using he
+            subst this
+            exact ⟨.frag Pct.nil .whole, .inr (.inr rfl)⟩
+          · split at h
+            · cases h
+            · rename_i d hd
+              split at h
+              · rename_i r' hf; cases h
+                exact ⟨.frag (pctDecode_sound _ _ hd) (find_sound _ _ _ hf), .inr (.inr rfl)⟩
+              · cases h
+        · cases h
+  · rintro ⟨h, _⟩
+    cases h with
+    | plain hr =>
+      have hf := find_complete hr hs
+      cases hr with
+      | whole => rfl
+      | path he =>
+        unfold resolve
+        simp only [if_true]
+        rw [hf]
+    | @frag q d _ _ hp hr =>
+      have hf := find_complete hr hs
+      unfold resolve
+      simp only [show ((0x23 : UInt8) = 0x2f) = False by decide, if_false, if_true]
+      split
+      · rename_i he
+        have : q = [] := by simpa using he
+        subst this
+        cases hp
+        cases hr
+        rfl
+      · rw [pctDecode_complete hp]
+        simp only
+        rw [hf]
+
+/-- never a different node, in either spelling -/
+theorem resolve_never_different (ptr : Bytes) (n r : Node) (h : resolve ptr n = .ok r) : RfcAny ptr n r := by
+  unfold resolve at h
+  split at h
+  · cases h; exact .plain .whole
+  · rename_i c rest
+    split at h
+    · rename_i hc; subst hc
+      split at h
+      · rename_i r' hf; cases h; exact .plain (find_sound _ _ _ hf)
+      · cases h
+    · split at h
+      · rename_i hc; subst hc
+        split at h
+        · rename_i he; cases h
+          have : rest = [] := by simpa using he
+          subst this
+          exact .frag Pct.nil .whole
+        · split at h
+          · cases h
+          · rename_i d hd
+            split at h
+            · rename_i r' hf; cases h
+              exact .frag (pctDecode_sound _ _ hd) (find_sound _ _ _ hf)
+            · cases h
+      · cases h
 
 #print axioms find_iff_rfc
 end Ptr
